@@ -434,13 +434,14 @@ class Run:
                           "wall_s": round(time.time() - t0, 2)})
         return r, path, n, rejected
 
-    def rp_leg(self, name, mc_spec, mc_cfg, domain, ops_file, verdict, workers=8, timeout=3000):
+    def rp_leg(self, name, mc_spec, mc_cfg, domain, ops_file, verdict, workers=8, timeout=3000, env=None,
+               tv_spec="TV_Machine", tv_cfg="TV_Machine.cfg", expect_all=True):
         """RP leg: TLC enumerates every behaviour of a bounded model and checks the property on it (MC);
         each maximal behaviour it prints (<<"HIST", <<...>>>>) is replayed by the harness on the real
         crate, and the recorded outcomes are validated by TLC against the same operators (TV)."""
         t0 = time.time()
         ops = os.path.join(SPEC, ops_file)
-        r = self.mc_leg(name + "_mc", mc_spec, mc_cfg, env={"OPS": ops}, workers=workers, timeout=timeout)
+        r = self.mc_leg(name + "_mc", mc_spec, mc_cfg, env=dict(env or {}, OPS=ops), workers=workers, timeout=timeout)
         hist = os.path.join(self.work, name + ".hist")
         nh = 0
         with open(hist, "w") as f:
@@ -453,7 +454,8 @@ class Run:
             raise ToolError("leg %s: TLC printed no behaviour" % name)
         out = os.path.join(self.work, name + ".ndjson")
         n = lc3v(["replay", domain, "hist=" + hist, "ops=" + ops], out, self.seed, self.tier)
-        res = self.trace_leg(name, ["replay", domain], verdict=verdict, path=out, workers=workers)
+        res = self.trace_leg(name, ["replay", domain], spec=tv_spec, cfg=tv_cfg, verdict=verdict, path=out, workers=workers,
+                             expect_all=expect_all)
         self.legs[-1].update({"kind": "RP (TLC-enumerated behaviours replayed on the implementation, then TV)",
                               "behaviours": nh, "wall_s": round(time.time() - t0, 2)})
         return res
@@ -683,6 +685,12 @@ def c12(run):
                                                      "real-traps-user-memory-differs", "real-traps-no-halt",
                                                      "exception-message-differs", "exception-no-halt"], expect_all=False)
     run.trace_leg("trapmode_conf", ["machine", "kind=trapmode"], verdict=["panic"], path=path)
+    # RP: the programs of MC_TrapMode (one fragment; thorough: two) replayed on the real simulator under both modes
+    r2, path2, n2, rej2 = run.rp_leg("rp_trapmode", "MC_TrapMode", "MC_TrapModeRP2.cfg" if run.tier == "thorough" else "MC_TrapModeRP.cfg",
+                                     "trapmode", "MC_TrapMode_ops.ndjson", env={"OSIMG": ospath}, tv_spec="TV_Pairs", tv_cfg="TV_Pairs.cfg",
+                                     verdict=PAIRV + ["real-traps-output-differs", "real-traps-registers-differ", "real-traps-user-memory-differs",
+                                                      "real-traps-no-halt", "exception-message-differs", "exception-no-halt"], expect_all=False)
+    run.trace_leg("rp_trapmode_conf", ["replay", "trapmode"], verdict=["panic"], path=path2)
     return run.finish(
         rule="user programs with I/O traps, subroutines and stack use, some halting and some faulting (access violation "
              "by load and by store, RTI in user mode, reserved opcode, invalid format), each run to completion under "
